@@ -7,7 +7,8 @@
 (* Uploads run on several goroutines; the clock advances on its own, so    *)
 (* two uploads may read the same clock value.                              *)
 (*                                                                         *)
-(* Property C33: every upload writes to a key no other upload has used.    *)
+(* Property C33: every upload writes to a key no other upload has used,    *)
+(* so no externalized payload is overwritten by another call's data.       *)
 (*                                                                         *)
 (* CONSTANT Design selects how a key is built:                             *)
 (*   "clock"   the S3 code as found: generateUUID is a function of         *)
@@ -19,69 +20,234 @@
 (* The harness maps Tick to the passage of virtual time and one abstract   *)
 (* upload to a batch of real calls of the generator (or real Upload calls  *)
 (* against a recording S3 endpoint).                                       *)
+(*                                                                         *)
+(* A key is only meaningful together with what is stored under it.  The    *)
+(* second family of actions (StartUp / StepUp / Audit) therefore follows   *)
+(* ONE real Upload call through the sections of S3Storage.Upload:          *)
+(*                                                                         *)
+(*   1 mint      key := prefix + generateUUID()                            *)
+(*   2 assemble  the PutObject parameters (Key, Body, ContentEncoding)     *)
+(*               are written into the request struct                       *)
+(*   3 send      the SDK serialises what that struct holds NOW and the     *)
+(*               request reaches the endpoint                              *)
+(*   4 store     the endpoint stores the object under the request's key    *)
+(*               and answers                                               *)
+(*   5 passemble the GetObject parameters for the pre-signed URL are       *)
+(*               written into their request struct                         *)
+(*   6 return    the URL is signed from what that struct holds NOW and     *)
+(*               Upload returns it                                         *)
+(*                                                                         *)
+(* After each of the sections 1..5 there is a station ("minted",           *)
+(* "assembled", "arrived", "stored", "presign") at which the harness can   *)
+(* hold the call while other uploads on the SAME storage instance run      *)
+(* ("minted": the call is inside Upload and the random bytes that decide   *)
+(* its key are drawn).                                                     *)
+(* CONSTANT Stations says which stations are used: an action runs an       *)
+(* upload from where it is held to the next station in the set (sections   *)
+(* in between are one atomic step), so TLC enumerates every overlap of     *)
+(* uploads at that granularity.                                            *)
+(*                                                                         *)
+(* CONSTANT Shared says which request structs belong to the storage        *)
+(* instance instead of the call: {} is the code as found (both are locals  *)
+(* of Upload); "put" / "get" model a per-storage PutObjectInput /          *)
+(* GetObjectInput template filled in through a pointer.                    *)
 (***************************************************************************)
 EXTENDS Naturals, Sequences, FiniteSets, TLC, VerifEmit
 
 CONSTANTS
-    Threads,     \* uploading goroutines
+    Threads,     \* uploading goroutines (naturals >= 1)
     MaxUploads,  \* bound on the number of uploads of a behaviour
     MaxClock,    \* bound on the clock
     Design,      \* "clock" | "random"
-    Vias,        \* how the harness performs an upload: subset of {"gen","burst","par","upload"}
+    Vias,        \* how the harness performs a batch upload: subset of {"gen","burst","par","upload"}
+    Stations,    \* where a staged upload can be held: subset of the names in StName
+    Encs,        \* content encodings of staged uploads ("none" = ""); {} = no staged uploads
+    Shared,      \* request structs owned by the storage, not the call: subset of {"put","get"}
     Mode, Depth
 
 VARIABLES
     clock,       \* the wall clock at the generator's resolution
     drawn,       \* number of random values handed out so far
-    pcs,         \* pcs[t] in {"idle","haveKey"}
-    key,         \* key[t]: the key thread t is about to write
-    written,     \* sequence of keys of completed uploads (objects in the bucket)
+    pcs,         \* pcs[t]: "idle", "haveKey" (batch upload between key and PUT) or the station
+                 \* a staged upload is held at
+    key,         \* key[t]: the key thread t minted for its current upload
+    written,     \* sequence of PUTs the bucket has stored, in order:
+                 \* [key, uid, enc, by, kown]  (payload of upload uid, sent by upload `by`
+                 \* whose own key is kown; batch uploads have uid = by = 0)
+    up,          \* up[t] = [uid, enc] of the staged upload thread t is running
+    nup,         \* number of staged uploads started (uid of the latest)
+    req,         \* PutObject request structs by slot (slot 0 = the storage's, slot t = the call's)
+    wire,        \* wire[t]: the PUT request of t as serialised (what the endpoint receives)
+    preq,        \* GetObject (presign) request structs by slot: the key they hold
+    done,        \* completed staged uploads in order: [uid, enc, key] (key = the one in the URL)
     hist
 
-vars == <<clock, drawn, pcs, key, written, hist>>
+vars == <<clock, drawn, pcs, key, written, up, nup, req, wire, preq, done, hist>>
 
 Record(step) ==
-    /\ hist' = IF Mode = "mc" THEN hist ELSE Append(hist, step)
+    /\ hist' = IF Mode = "mc" THEN <<step>> ELSE Append(hist, step)
     /\ (Mode = "edges") => EmitTrace(hist')
     /\ (Mode = "tree" /\ Len(hist') = Depth) => EmitTrace(hist')
 Budget == (Mode = "tree") => Len(hist) < Depth
 
-Started == Len(written) + Cardinality({t \in Threads : pcs[t] = "haveKey"})
+StName == <<"minted", "assembled", "arrived", "stored", "presign">>
+StIdx(s) == CHOOSE i \in 1..5 : StName[i] = s
+Held(t) == pcs[t] \in {StName[i] : i \in 1..5}
+\* uploads whose key is decided but whose object is not in the bucket yet
+Pending(t) == pcs[t] \in {"haveKey", "minted", "assembled", "arrived"}
+
+NoKey == <<"none", 0>>
+NoReq == [key |-> NoKey, uid |-> 0, enc |-> "none"]
+NoObj == [key |-> NoKey, uid |-> 0, enc |-> "absent", by |-> 0, kown |-> NoKey]
+Slots == Threads \cup {0}
+Slot(kind, t) == IF kind \in Shared THEN 0 ELSE t
+
+Started == Len(written) + Cardinality({t \in Threads : Pending(t)})
 
 \* time passes
 Tick ==
     /\ Budget /\ clock < MaxClock
     /\ clock' = clock + 1
-    /\ UNCHANGED <<drawn, pcs, key, written>>
+    /\ UNCHANGED <<drawn, pcs, key, written, up, nup, req, wire, preq, done>>
     /\ Record([a |-> "Tick", args |-> [x |-> 0], exp |-> [clock |-> clock + 1]])
 
-\* generateUUID / uuid.New(): build the key
+KeyUnused(k, t) ==
+    /\ \A i \in 1..Len(written) : written[i].key # k
+    /\ \A u \in Threads \ {t} : Pending(u) => key[u] # k
+
+\* generateUUID / uuid.New(): build the key (batch upload: the harness performs many real ones)
 MakeKey(t, via) ==
     /\ Budget /\ pcs[t] = "idle" /\ Started < MaxUploads /\ via \in Vias
     /\ pcs' = [pcs EXCEPT ![t] = "haveKey"]
     /\ IF Design = "clock"
        THEN key' = [key EXCEPT ![t] = <<"c", clock>>] /\ drawn' = drawn
        ELSE key' = [key EXCEPT ![t] = <<"r", drawn>>] /\ drawn' = drawn + 1
-    /\ UNCHANGED <<clock, written>>
+    /\ UNCHANGED <<clock, written, up, nup, req, wire, preq, done>>
     /\ Record([a |-> "MakeKey", t |-> t, args |-> [via |-> via],
-               exp |-> [fresh |-> /\ \A i \in 1..Len(written) : written[i] # key'[t]
-                                  /\ \A u \in Threads \ {t} :
-                                        pcs[u] = "haveKey" => key[u] # key'[t]]])
+               exp |-> [fresh |-> KeyUnused(key'[t], t)]
+                       \* free-running real Upload calls: every one succeeds and every returned
+                       \* key holds exactly the payload and encoding of its own call
+                       @@ (IF via = "upload" THEN [err |-> FALSE, intact |-> TRUE]
+                                              ELSE [x \in {} |-> 0])])
 
 \* PutObject under that key
 Put(t) ==
     /\ Budget /\ pcs[t] = "haveKey"
     /\ pcs' = [pcs EXCEPT ![t] = "idle"]
-    /\ written' = Append(written, key[t])
-    /\ UNCHANGED <<clock, drawn, key>>
+    /\ written' = Append(written, [key |-> key[t], uid |-> 0, enc |-> "none", by |-> 0, kown |-> key[t]])
+    /\ UNCHANGED <<clock, drawn, key, up, nup, req, wire, preq, done>>
     /\ Record([a |-> "Put", t |-> t, args |-> [x |-> 0],
-               exp |-> [overwrote |-> \E i \in 1..Len(written) : written[i] = key[t]]])
+               exp |-> [overwrote |-> \E i \in 1..Len(written) : written[i].key = key[t]]])
+
+--------------------------------------------------------------------------
+(* One real Upload call, section by section.  S is the record of the       *)
+(* variables the sections touch; u, e = uid and encoding of the call.      *)
+Section(i, t, u, e, S) ==
+    CASE i = 1 -> (IF Design = "clock"
+                   THEN [S EXCEPT !.key[t] = <<"c", clock>>]
+                   ELSE [S EXCEPT !.key[t] = <<"r", S.drawn>>, !.drawn = S.drawn + 1])
+      [] i = 2 -> [S EXCEPT !.req[Slot("put", t)] = [key |-> S.key[t], uid |-> u, enc |-> e]]
+      [] i = 3 -> [S EXCEPT !.wire[t] = S.req[Slot("put", t)]]
+      [] i = 4 -> [S EXCEPT !.written = Append(S.written,
+                        [key |-> S.wire[t].key, uid |-> S.wire[t].uid, enc |-> S.wire[t].enc,
+                         by |-> u, kown |-> S.key[t]])]
+      [] i = 5 -> [S EXCEPT !.preq[Slot("get", t)] = S.key[t]]
+      [] i = 6 -> [S EXCEPT !.done = Append(S.done, [uid |-> u, enc |-> e, key |-> S.preq[Slot("get", t)]])]
+
+RECURSIVE RunSections(_, _, _, _, _, _)
+RunSections(p, q, t, u, e, S) ==
+    IF p >= q THEN S ELSE RunSections(p + 1, q, t, u, e, Section(p + 1, t, u, e, S))
+
+\* where an upload held after section p is held next (6 = it returns)
+NextStop(p) ==
+    LET c == {q \in (p + 1)..5 : StName[q] \in Stations}
+    IN  IF c = {} THEN 6 ELSE CHOOSE q \in c : \A r \in c : q <= r
+
+\* the object the bucket w holds under key k (the latest PUT wins)
+ObjAt(w, k) ==
+    LET idx == {i \in 1..Len(w) : w[i].key = k}
+    IN  IF idx = {} THEN NoObj ELSE w[CHOOSE i \in idx : \A j \in idx : j <= i]
+
+Nothing == [x \in {} |-> 0]
+
+\* run upload (u, e) of thread t from after section p to its next stop
+Stage(name, t, u, e, p) ==
+    LET q  == NextStop(p)
+        S0 == [key |-> key, drawn |-> drawn, req |-> req, wire |-> wire,
+               written |-> written, preq |-> preq, done |-> done]
+        S  == RunSections(p, q, t, u, e, S0)
+        ran(i) == p < i /\ i <= q
+        url == S.done[Len(S.done)].key
+        obj == ObjAt(S.written, url)
+        exp == [x |-> 0]
+            \* what the endpoint received for this call
+            @@ (IF ran(3) THEN [put_key  |-> IF S.wire[t].key = S.key[t] THEN "own" ELSE "other",
+                                put_body |-> IF S.wire[t].uid = u THEN "own" ELSE "other",
+                                put_enc  |-> S.wire[t].enc]
+                          ELSE Nothing)
+            \* ... and whether storing it replaced an object
+            @@ (IF ran(4) THEN [overwrote |-> \E i \in 1..Len(written) : written[i].key = S.wire[t].key]
+                          ELSE Nothing)
+            \* what the call returned and what the bucket holds under the returned key
+            @@ (IF ran(6) THEN [err       |-> FALSE,
+                                url_key   |-> IF url = S.key[t] THEN "own" ELSE "other",
+                                url_fresh |-> \A i \in 1..Len(done) : done[i].key # url,
+                                obj_body  |-> IF obj.uid = u THEN "own"
+                                              ELSE IF obj.by = 0 THEN "absent" ELSE "other",
+                                obj_enc   |-> obj.enc]
+                          ELSE Nothing)
+    IN  /\ drawn' = S.drawn /\ written' = S.written /\ done' = S.done
+        /\ IF q = 6
+           THEN \* the call's locals are gone; the storage's structs (slot 0) stay as they are
+                /\ pcs'  = [pcs EXCEPT ![t] = "idle"]
+                /\ key'  = [S.key EXCEPT ![t] = NoKey]
+                /\ up'   = [up EXCEPT ![t] = [uid |-> 0, enc |-> "none"]]
+                /\ req'  = [S.req EXCEPT ![t] = NoReq]
+                /\ wire' = [S.wire EXCEPT ![t] = NoReq]
+                /\ preq' = [S.preq EXCEPT ![t] = NoKey]
+           ELSE /\ pcs'  = [pcs EXCEPT ![t] = StName[q]]
+                /\ key'  = S.key
+                /\ up'   = [up EXCEPT ![t] = [uid |-> u, enc |-> e]]
+                /\ req' = S.req /\ wire' = S.wire /\ preq' = S.preq
+        /\ Record([a |-> name, t |-> t,
+                   args |-> [uid |-> u, enc |-> e, to |-> IF q = 6 THEN "done" ELSE StName[q]],
+                   exp |-> exp])
+
+\* a goroutine calls Upload(payload, schema, enc)
+StartUp(t, e) ==
+    /\ Budget /\ pcs[t] = "idle" /\ Started < MaxUploads /\ e \in Encs
+    /\ nup' = nup + 1
+    /\ UNCHANGED clock
+    /\ Stage("StartUp", t, nup + 1, e, 0)
+
+\* a held call continues to its next stop
+StepUp(t) ==
+    /\ Budget /\ Held(t)
+    /\ UNCHANGED <<clock, nup>>
+    /\ Stage("StepUp", t, up[t].uid, up[t].enc, StIdx(pcs[t]))
+
+IntactAt(i) ==
+    LET o == ObjAt(written, done[i].key) IN o.uid = done[i].uid /\ o.enc = done[i].enc
+ReturnedDistinct ==
+    \A i, j \in 1..Len(done) : i # j => done[i].key # done[j].key
+
+\* everything is quiet: read the bucket back through every returned URL
+Audit ==
+    /\ Budget /\ Len(done) > 0 /\ \A t \in Threads : pcs[t] = "idle"
+    /\ UNCHANGED <<clock, drawn, pcs, key, written, up, nup, req, wire, preq, done>>
+    /\ Record([a |-> "Audit", args |-> [n |-> Len(done)],
+               exp |-> [lost |-> Cardinality({i \in 1..Len(done) : ~IntactAt(i)}),
+                        distinct |-> ReturnedDistinct]])
 
 Init ==
-    /\ clock = 0 /\ drawn = 0
+    /\ clock = 0 /\ drawn = 0 /\ nup = 0
     /\ pcs = [t \in Threads |-> "idle"]
-    /\ key = [t \in Threads |-> <<"none", 0>>]
-    /\ written = <<>>
+    /\ key = [t \in Threads |-> NoKey]
+    /\ up = [t \in Threads |-> [uid |-> 0, enc |-> "none"]]
+    /\ req = [s \in Slots |-> NoReq]
+    /\ wire = [t \in Threads |-> NoReq]
+    /\ preq = [s \in Slots |-> NoKey]
+    /\ written = <<>> /\ done = <<>>
     /\ hist = << [a |-> "Init", args |-> [Design |-> Design, Threads |-> Cardinality(Threads)],
                   exp |-> [x |-> 0]] >>
 
@@ -89,19 +255,47 @@ Next ==
     \/ Tick
     \/ \E t \in Threads, v \in Vias : MakeKey(t, v)
     \/ \E t \in Threads : Put(t)
+    \/ \E t \in Threads, e \in Encs : StartUp(t, e)
+    \/ \E t \in Threads : StepUp(t)
+    \/ Audit
 
 Spec == Init /\ [][Next]_vars
 
 --------------------------------------------------------------------------
 (* C33: no two uploads use the same key -- no object is ever overwritten.  *)
 KeysDistinct ==
-    \A i, j \in 1..Len(written) : i # j => written[i] # written[j]
+    \A i, j \in 1..Len(written) : i # j => written[i].key # written[j].key
 \* including uploads still in flight
 NoPendingCollision ==
-    \A t \in Threads : pcs[t] = "haveKey" =>
-        /\ \A i \in 1..Len(written) : written[i] # key[t]
-        /\ \A u \in Threads : (u # t /\ pcs[u] = "haveKey") => key[u] # key[t]
+    \A t \in Threads : Pending(t) =>
+        /\ \A i \in 1..Len(written) : written[i].key # key[t]
+        /\ \A u \in Threads : (u # t /\ Pending(u)) => key[u] # key[t]
 NoOverwrite == KeysDistinct /\ NoPendingCollision
 
-View == <<clock, drawn, pcs, key, written>>
+(* ... and a key is only worth something with what is stored under it:    *)
+(* every PUT carries the payload of the call that sent it and lands on     *)
+(* that call's own key (also while it is still on the wire), every         *)
+(* returned key is returned once, and the object under it is exactly the   *)
+(* payload and encoding of the call it was returned to.                    *)
+OwnKeyOnly ==
+    /\ \A i \in 1..Len(written) :
+          written[i].by # 0 => written[i].uid = written[i].by /\ written[i].key = written[i].kown
+    /\ \A t \in Threads :
+          pcs[t] = "arrived" => wire[t].uid = up[t].uid /\ wire[t].key = key[t]
+Intact == \A i \in 1..Len(done) : IntactAt(i)
+UploadsIsolated == OwnKeyOnly /\ Intact /\ ReturnedDistinct
+
+(* the observations the specification predicts never show a reused key, a  *)
+(* foreign payload or a failed call (action property: reads the step)      *)
+Good(x) ==
+    /\ ("fresh" \in DOMAIN x) => x.fresh
+    /\ ("overwrote" \in DOMAIN x) => ~x.overwrote
+    /\ ("intact" \in DOMAIN x) => x.intact
+    /\ ("err" \in DOMAIN x) => ~x.err
+    /\ ("put_key" \in DOMAIN x) => x.put_key = "own" /\ x.put_body = "own"
+    /\ ("url_key" \in DOMAIN x) => x.url_key = "own" /\ x.url_fresh /\ x.obj_body = "own"
+    /\ ("lost" \in DOMAIN x) => x.lost = 0 /\ x.distinct
+ObservationsGood == [][Good(hist'[Len(hist')].exp)]_vars
+
+View == <<clock, drawn, pcs, key, written, up, nup, req, wire, preq, done>>
 =============================================================================
